@@ -286,12 +286,17 @@ pub fn castle_theme() -> impl Strategy<Value = RawPos> {
 
 /// A double step has just been made next to an enemy pawn; the capturer's king and an enemy
 /// slider are arranged on the rank / diagonal / file that the capture would open.
-pub fn ep_theme() -> impl Strategy<Value = RawPos> {
+pub fn ep_theme() -> BoxedStrategy<RawPos> {
+    ep_theme_arr((0u8..9).boxed())
+}
+
+/// The en-passant theme with a chosen distribution of arrangements (see the match below).
+pub fn ep_theme_arr(arrangement: BoxedStrategy<u8>) -> BoxedStrategy<RawPos> {
     (
         any::<bool>(),                        // white is the capturer (to move)
         0u8..8,                               // file of the double-stepped pawn
         0u8..3,                               // capturers: 0 left, 1 right, 2 both
-        0u8..9,                               // arrangement
+        arrangement,                          // arrangement
         any::<u16>(),                         // king selector
         any::<u16>(),                         // slider selector
         0u8..64,                              // other king
@@ -452,6 +457,7 @@ pub fn ep_theme() -> impl Strategy<Value = RawPos> {
                 half: 0,
             }
         })
+        .boxed()
 }
 
 /// Seven to nine like pieces (knights, bishops, rooks or queens) of one side plus pawns of that
@@ -492,7 +498,8 @@ pub fn crowded_promo() -> impl Strategy<Value = RawPos> {
 /// The position one ply BEFORE an en-passant set-up: the double step is still to be played
 /// (so its annotation - check, mate, or neither - and its label are exercised).
 pub fn pre_double_step() -> impl Strategy<Value = String> {
-    ep_theme().prop_map(|r| {
+    // two thirds: the double step will give check to a boxed-in king (arrangement 5)
+    ep_theme_arr(prop_oneof![1 => 0u8..9, 2 => Just(5u8)].boxed()).prop_map(|r| {
         let p = build(&r);
         if let Some(t) = p.ep {
             let mover = p.side.other();
@@ -854,6 +861,40 @@ pub fn pre_terminal() -> BoxedStrategy<String> {
             let mut q = if cur.legal_moves().is_empty() { prev } else { cur };
             q.half = 0;
             q.fen()
+        })
+        .boxed()
+}
+
+/// Overwhelming material against a bare king that stands on or near the edge: forced mates in
+/// two to four moves are common (mate scores at several depths inside one search tree).
+pub fn mating_material() -> BoxedStrategy<String> {
+    (
+        any::<bool>(),
+        0u8..28,
+        (-2i8..=2, -2i8..=2),
+        prop::collection::vec((0u8..64, prop_oneof![Just(3u8), Just(4u8)]), 2..4),
+        0u8..64,
+        any::<bool>(),
+    )
+        .prop_map(|(attacker_white, e, (df, dr), heavy, ak, attacker_to_move)| {
+            let edge: Vec<u8> = (0..64u8)
+                .filter(|s| file_of(*s) == 0 || file_of(*s) == 7 || rank_of(*s) == 0 || rank_of(*s) == 7)
+                .collect();
+            let base = edge[e as usize % edge.len()];
+            let dk = sq_of((file_of(base) + df).clamp(0, 7), (rank_of(base) + dr).clamp(0, 7)).unwrap();
+            let items: Vec<(u8, u8, bool)> = heavy.into_iter().map(|(s, t)| (s, t, attacker_white)).collect();
+            let (wk, bk) = if attacker_white { (ak, dk) } else { (dk, ak) };
+            let mut p = build(&RawPos {
+                wk,
+                bk,
+                items,
+                white_to_move: attacker_white == attacker_to_move,
+                rights: 0,
+                ep_file: None,
+                half: 0,
+            });
+            p.half = 0;
+            p.fen()
         })
         .boxed()
 }
